@@ -1237,7 +1237,13 @@ class Schema(utils.Formattable, utils.JSONConvertible):
           # NOTE(daiyip): minimize call to __setitem__ when possible.
           # Custom like symbolic dict may trigger additional logic
           # when __setitem__ is called.
-          dict_obj[key] = new_value
+          # A custom dict whose `__setitem__` is guarded by permissions for
+          # user writes may provide `_set_item_on_apply` for being completed.
+          set_item = getattr(dict_obj, '_set_item_on_apply', None)
+          if set_item is not None:
+            set_item(key, new_value)
+          else:
+            dict_obj[key] = new_value
     return dict_obj
 
   def validate(
